@@ -294,7 +294,7 @@ func ruleP06Panics(p *Prog, r *Report) {
 				ctx.dischargeAtoiPanic(key, s.f, s.pn)
 			case fname == "(klog/parser/engine.ParallelBatchParser[T]).Parse":
 				ctx.dischargeWorkers(rule, key, s.pn)
-			case fname == "(*klog/service/period.bitMask).populate":
+			case fname == "(*klog/service/period.bitMask).populate" || fname == "(klog/service/period.bitMask).populate":
 				ctx.dischargePopulate(rule, key, s.pn)
 			case fname == "klog/app/cli/util.PrettyMonth":
 				ctx.dischargeSwitch(rule, key, s.f, s.pn, 1, 12, "Month")
